@@ -242,8 +242,23 @@ func (matrix *DenseIntMatrix) Tip() {
   matrix.rowOffset, matrix.colOffset = matrix.colOffset, matrix.rowOffset
   matrix.rowMax, matrix.colMax = matrix.colMax, matrix.rowMax
 }
+func (matrix *DenseIntMatrix) asVector() DenseIntVector {
+  if matrix.rows != matrix.rowMax || matrix.cols != matrix.colMax {
+    // sliced matrix: collect the elements of the slice
+    n, m := matrix.Dims()
+    v := make([]int, n*m)
+    for i := 0; i < n; i++ {
+      for j := 0; j < m; j++ {
+        v[i*m + j] = matrix.values[matrix.index(i, j)]
+      }
+    }
+    return DenseIntVector(v)
+  } else {
+    return DenseIntVector(matrix.values)
+  }
+}
 func (matrix *DenseIntMatrix) AsVector() Vector {
-  return DenseIntVector(matrix.values)
+  return matrix.asVector()
 }
 func (matrix *DenseIntMatrix) storageLocation() uintptr {
   return uintptr(unsafe.Pointer(&matrix.values[0]))
@@ -332,7 +347,7 @@ func (matrix *DenseIntMatrix) IsSymmetric(epsilon float64) bool {
   return true
 }
 func (matrix *DenseIntMatrix) AsConstVector() ConstVector {
-  return DenseIntVector(matrix.values)
+  return matrix.asVector()
 }
 /* implement ScalarContainer
  * -------------------------------------------------------------------------- */
